@@ -359,7 +359,7 @@ def scanFault (c : Core) (f : Fault) : PFault :=
   match f with
   | .err m i => .err ⟨m.render, c.current.name, i, c.liveTrace, c.accesses, false⟩
   | .panic s => .panic s
-  | .fuel => .fuel
+  | .fuel => .panic "Scanner.Next: the byte loop does not end (out of fuel in the model)"
 
 /-- processInclude -/
 def Core.processInclude (c : Core) (fsys : FileSys) (kw : Lexeme) : Except PFault Core :=
